@@ -1,7 +1,7 @@
 import vlib
 MODULE = "ExporterTrace"
 PROP = "C02"
-RULE = 'random templates over the full shipped registry plus user-registered elements of every supported type, random value vectors incl. boundaries, 1..fit records, TCP and UDP; one Send event per SendSet; distinct = distinct (set shape, values) by hash; all sends carry >= 1 field'
+RULE = 'random templates over the full shipped registry plus user-registered elements of every supported type, random value vectors incl. boundaries, 1..fit records, TCP and UDP; one Send event per SendSet; distinct = distinct (set shape, values) by hash; all sends carry >= 1 field; plus one 1.5 s UDP session with 400 templates whose refresh burst overlaps application sends (C14 trace spec)'
 
 def sig(ev):
     if ev.get("e") != "Send":
@@ -15,10 +15,16 @@ def run(ck):
     b = ck.go_build("cexp")
     trace, summ = ck.run_driver(b, ["-mode", "c02"])
     ck.validate(MODULE, trace, sig=sig)
+    # the same statement for the messages the exporter writes on its own (UDP template refresh), interleaved
+    # with the application's: one short refresh session of the C14 driver, validated byte for byte
+    b14 = ck.go_build("c14", race=True)
+    t14, s14 = ck.run_driver(b14, ["-scen", "refresh"], env_extra={"GORACE": "halt_on_error=0 exitcode=0"}, allow_rc=(0, 2), name="refresh")
+    vlib.append_monitor_events(t14, vlib.race_reports(s14["stderr_path"]))
+    ck.validate("C14Trace", t14, sig=lambda ev: "Refresh:" + ev.get("e", "?"))
     ck.assumptions += ["the peer socket is owned by the harness; over TCP exactly the reported byte count is read after each successful send, over UDP one datagram; stray bytes would misalign the next read or show up in the final Quiesce read",
                        "UDP messages are kept below 60000 bytes (loopback datagram limit); the 65535 boundary is exercised over TCP",
                        "enterprise numbers below 2^31 (TLC integers)"]
     ck.finish(rule=RULE, technique="TLA+ Exporter/Wire specs (TLC exhaustive small scope) + TLC byte-level trace validation of a real exporter against a raw peer socket")
 
 def replay(path):
-    vlib.replay(PROP, MODULE, path)
+    vlib.replay(PROP, "C14Trace" if "C14Trace" in path else MODULE, path)
